@@ -229,6 +229,9 @@ def pmap(fn, items, jobs=None, chunksize=None):
 
 
 # ---------------------------------------------------------------- comparison
+SUBNORMAL_ATOL = F(1, 2 ** 1063)
+
+
 def close(impl, model, rtol=1e-9, atol=0.0):
     """impl: float; model: exact Fraction.  |impl - model| <= atol + rtol*|model|"""
     if isinstance(impl, bool) or impl is None:
@@ -236,7 +239,9 @@ def close(impl, model, rtol=1e-9, atol=0.0):
     if isinstance(impl, float) and (math.isnan(impl) or math.isinf(impl)):
         return False
     d = abs(F(impl) - model)
-    return d <= F(atol) + F(rtol) * abs(model)
+    # binary64 below 2^-1022 is subnormal: its spacing is the absolute 2^-1074, so a relative tolerance means
+    # nothing there; SUBNORMAL_ATOL is about 2000 such steps
+    return d <= F(atol) + F(rtol) * abs(model) + SUBNORMAL_ATOL
 
 
 def same(impl, model, rtol=1e-9, atol=0.0, path=''):
